@@ -78,7 +78,10 @@ def case(draw):
                    alt=draw(st.sampled_from(["none", "adjacent", "grouped", "grouped"])),
                    at=draw(st.sampled_from(["end", "end", "start"])))  # fmt: skip
     edits = [[draw(st.integers(0, 400)), draw(st.sampled_from(EDITS))] for _ in range(draw(st.integers(0, 6)))]
-    alts = [[draw(st.integers(0, 400)), draw(st.sampled_from(["adjacent", "grouped"]))] for _ in range(draw(st.integers(0, 2)))]
+    # alternate locations: each disordered atom has its OWN pair of labels (A/B is only the most common:
+    # B/C next to A/B in one residue, labels listed in descending order, digits)
+    alts = [[draw(st.integers(0, 400)), draw(st.sampled_from(["adjacent", "grouped"])), draw(st.integers(0, len(ALT_LABELS) - 1))]
+            for _ in range(draw(st.integers(0, 3)))]
     return dict(
         part="layout", desc=desc, edits=edits, alts=alts, het=het,
         # column content that carries no coordinates: segment id (73-76), zero occupancy, odd B factors,
@@ -95,11 +98,17 @@ def case(draw):
         models=draw(st.sampled_from([0, 0, 1, 2, 3])),
         model_serials=draw(st.sampled_from(["from1", "from1", "from0", "from3", "all-same", "descending"])),
         serial0=draw(st.sampled_from([1, 1, 9995, 99990])),
+        # atom serial numbers are not identifiers: blocks (hetero groups, waters, strands) that restart at 1,
+        # files in which every record carries the same serial
+        serials=draw(st.sampled_from(["running", "running", "running", "restart-per-block", "restart-per-block", "all-equal"])),
         lead_end=draw(st.sampled_from([False, False, False, True])),
         double_end=draw(st.booleans()),
         mode=draw(st.sampled_from(["clean", "clean", "clean", "full", "full-dropwater", "clean-dropwater"])),
         ff=draw(st.sampled_from(["AMBER", "PARSE", "CHARMM"])),
     )  # fmt: skip
+
+
+ALT_LABELS = [("A", "B"), ("A", "B"), ("B", "C"), ("B", "A"), ("1", "2"), ("C", "D")]
 
 
 def render(case):
@@ -111,9 +120,11 @@ def render(case):
     # atom lines with optional alt-loc copies
     lines = []  # (kind, text, record index)
     alt_at = {}
-    for pos, style in case["alts"]:
+    alt_lab = {}
+    for pos, style, *lab in case["alts"]:
         if recs:
             alt_at[pos % len(recs)] = style
+            alt_lab[pos % len(recs)] = ALT_LABELS[lab[0]] if lab else ("A", "B")
     het = case.get("het")
     if het:
         names = {"SO4": ["S", "O1", "O2", "O3", "O4"], "ZN": ["ZN"], "MSE": ["N", "CA", "C", "O", "SE"],
@@ -123,6 +134,7 @@ def render(case):
                  for k, nm in enumerate(names)]  # fmt: skip
         if het["at"] == "start":
             alt_at = {k + len(hrecs): v for k, v in alt_at.items()}
+            alt_lab = {k + len(hrecs): v for k, v in alt_lab.items()}
             recs = hrecs + recs
             base = 0
         else:
@@ -151,17 +163,21 @@ def render(case):
                 ln = ln[:72] + case["segid"].ljust(4) + ln[76:]
             return ln
 
+        scheme = case.get("serials", "running")
+        if scheme == "restart-per-block" and i > 0 and (recs[i - 1]["group"][0], recs[i - 1]["group"][1:2]) != (r["group"][0], r["group"][1:2]):
+            serial = 1
         if i in alt_at:
-            lines.append(("atom", fmt("A", 0.0, 0.6), i))
-            serial += 1
+            la, lb = alt_lab.get(i, ("A", "B"))
+            lines.append(("atom", fmt(la, 0.0, 0.6), i))
+            serial += scheme != "all-equal"
             if alt_at[i] == "adjacent":
-                lines.append(("atom", fmt("B", 0.35, 0.4), i))
-                serial += 1
+                lines.append(("atom", fmt(lb, 0.35, 0.4), i))
+                serial += scheme != "all-equal"
             else:
-                grouped_pending.append((i, fmt("B", 0.35, 0.4)))
+                grouped_pending.append((i, fmt(lb, 0.35, 0.4)))
         else:
             lines.append(("atom", fmt(" "), i))
-            serial += 1
+            serial += scheme != "all-equal"
         last_of_res = i + 1 == len(recs) or (recs[i + 1]["group"], recs[i + 1]["seq"], recs[i + 1]["icode"]) != (r["group"], r["seq"], r["icode"])
         if last_of_res:
             for j, text in grouped_pending:
